@@ -58,7 +58,7 @@ class C15(Prop):
                    'weights are non-negative dyadic floats (sums are exact; compared with rtol 1e-9)',
                    'the vector form of a projection onto the EMPTY attribute list is outside the generated family: numpy.histogramdd rejects a sample with 0 columns '
                    '(only the projected domain and the record count are checked there)',
-                   'Domain.marginalize / invert / canonical are called with collections of names (list, tuple, set), not with a bare str (substring semantics)']
+                   'Domain.marginalize / invert / canonical are called with collections of names (list, tuple, dict key view), not with a bare str (substring semantics)']
     quick_budget_s = 60
     thorough_budget_s = 900
     exhaustive = {'quick': False, 'thorough': False}
@@ -292,7 +292,9 @@ class C15(Prop):
             k = int(rng.randint(0, len(NAMES) + 1))
             names = [str(x) for x in rng.permutation(list(NAMES))[:k]]
             form = int(rng.randint(3))
-            return names, (names if form == 0 else tuple(names) if form == 1 else set(names))
+            # third form: a set-like, non-sequence collection with a deterministic iteration order (a dict key view; a plain set of
+            # str would make a faulty implementation's answer depend on PYTHONHASHSEED and the replay unreproducible)
+            return names, (names if form == 0 else tuple(names) if form == 1 else dict.fromkeys(names).keys())
 
         out.append(('init', is_dom(D, attrs), dict(attrs=list(D.attrs), shape=list(D.shape))))
         F = Domain.fromdict(dict(zip(attrs, shape)))
